@@ -168,21 +168,30 @@ Fixpoint push_all (dst : ring) (vs : list (option elem)) (b : bool) : res :=
   | None :: t => push_all dst t true   (* reading a raw slot *)
   end.
 
+(** the block a copy obtains: [capacity_ ? alloc_.allocate(capacity_) : nullptr] -- a copy of an unallocated buffer
+    (capacity 0) stays unallocated (since the fix; as shipped a zero-size block was allocated, see [block_shipped]) *)
+Definition block (c : nat) : option (list (option elem)) := if c =? 0 then None else Some (repeat None c).
+Definition block_shipped (c : nat) : option (list (option elem)) := Some (repeat None c).
+
 (** RingBuffer(const RingBuffer& rb) *)
-Definition copy_construct (src : ring) : res :=
-  push_all {| max_size := max_size src; cap := cap src; data := Some (repeat None (cap src));
+Definition copy_construct_with (blk : nat -> option (list (option elem))) (src : ring) : res :=
+  push_all {| max_size := max_size src; cap := cap src; data := blk (cap src);
               rbegin := 0; rend := 0 |} (contents src) false.
+Definition copy_construct := copy_construct_with block.
+Definition copy_construct_shipped := copy_construct_with block_shipped.
 
 (** operator=(const RingBuffer& rb), this != &rb *)
-Definition copy_assign (dst src : ring) : res :=
+Definition copy_assign_with (blk : nat -> option (list (option elem))) (dst src : ring) : res :=
   let x := clear dst in
   let d1 := buf x in
   let realloc := negb (cap d1 =? cap src) in
   let leak := realloc && negb (all_raw d1) in
   let d2 := {| max_size := max_size src; cap := cap src;
-               data := if realloc then Some (repeat None (cap src)) else data d1;
+               data := if realloc then blk (cap src) else data d1;
                rbegin := 0; rend := 0 |} in
   push_all d2 (contents src) (bad x || leak).
+Definition copy_assign := copy_assign_with block.
+Definition copy_assign_shipped := copy_assign_with block_shipped.
 
 (** RingBuffer(RingBuffer&& rb): returns (new object, moved-from source) *)
 Definition moved_from (src : ring) : ring :=
